@@ -37,6 +37,8 @@ import (
 
 type algStats struct {
 	Ops, Ceremonies, Batches, SignaturesChecked, SharesChecked, SubsetsChecked int
+	C07Schedules, C07Races                                                   int
+	C07Exhaustive                                                            string
 	Configs                                                                  []string
 	OutcomeHist                                                              map[string]int
 	Monitors                                                                 []string
@@ -447,6 +449,26 @@ func runAlgDiff(outDir string, seed int64, tier string) {
 						a.st.Notes = append(a.st.Notes, fmt.Sprintf("%s batch %d signers=%v late=%v: %s", tag, b, signers, late, truncate(e, 200)))
 					}
 					a.checkSignatures(c, round, batch, secret, gk, want, fmt.Sprintf("%s batch %d signers=%v late=%v", tag, b, signers, late))
+				}
+				// C07: racing proposals, then schedules with slow signers (all of them for n=3,t=2 in the thorough tier)
+				a.raceProposals(c, round, secret, gk, cf.t, tag)
+				scheds := allSchedules(cf.n, cf.t)
+				pick := 4
+				if cf.n == 3 && cf.t == 2 {
+					pick = 16
+					if tier == "thorough" {
+						pick = len(scheds)
+						a.st.C07Exhaustive = fmt.Sprintf("all %d schedules of two batches for n=3,t=2", len(scheds))
+					}
+				} else if tier == "thorough" {
+					pick = 40
+				}
+				if pick < len(scheds) {
+					a.rng.Shuffle(len(scheds), func(i, j int) { scheds[i], scheds[j] = scheds[j], scheds[i] })
+					scheds = scheds[:pick]
+				}
+				for k, sc := range scheds {
+					a.runSchedule(c, round, secret, gk, sc, k, tag)
 				}
 			}
 		}
